@@ -92,6 +92,7 @@ pub mod target {
         Log,
         Ret,
         Fail,
+        FailKind,
     }
 
     /// Records every call (function, args) in its storage, returns a configured value, panics
@@ -102,6 +103,10 @@ pub mod target {
     impl ProbeTarget {
         fn record(env: &Env, name: &str, args: Vec<Val>) -> Val {
             if env.storage().instance().get::<_, bool>(&TKey::Fail).unwrap_or(false) {
+                // fail by trapping, or the polite way: with one of the contract's own error codes
+                if env.storage().instance().get::<_, u32>(&TKey::FailKind).unwrap_or(0) == 1 {
+                    soroban_sdk::panic_with_error!(env, TargetError::Never);
+                }
                 panic!("probe target told to fail");
             }
             let mut log: Vec<Val> = env
@@ -128,6 +133,9 @@ pub mod target {
         }
         pub fn set_fail(env: Env, f: bool) {
             env.storage().instance().set(&TKey::Fail, &f);
+        }
+        pub fn set_fail_kind(env: Env, k: u32) {
+            env.storage().instance().set(&TKey::FailKind, &k);
         }
         pub fn log(env: Env) -> Vec<Val> {
             env.storage()
@@ -183,6 +191,14 @@ pub mod its_exec {
         Its,
         Fail,
         Log,
+        FailKind,
+    }
+
+    #[soroban_sdk::contracterror]
+    #[derive(Copy, Clone, Debug, Eq, PartialEq)]
+    #[repr(u32)]
+    pub enum ExecError {
+        Rejected = 7,
     }
 
     /// Destination application for transfers with data.
@@ -207,6 +223,9 @@ pub mod its_exec {
         ) {
             Self::validate(env);
             if env.storage().instance().get::<_, bool>(&EKey::Fail).unwrap_or(false) {
+                if env.storage().instance().get::<_, u32>(&EKey::FailKind).unwrap_or(0) == 1 {
+                    soroban_sdk::panic_with_error!(env, ExecError::Rejected);
+                }
                 panic!("probe executable told to fail");
             }
             // the tokens must already be here when the application is called
@@ -237,6 +256,9 @@ pub mod its_exec {
         }
         pub fn set_fail(env: Env, f: bool) {
             env.storage().instance().set(&EKey::Fail, &f);
+        }
+        pub fn set_fail_kind(env: Env, k: u32) {
+            env.storage().instance().set(&EKey::FailKind, &k);
         }
         pub fn log(env: Env) -> Vec<Val> {
             env.storage()
@@ -303,7 +325,15 @@ pub mod ptoken {
         Decimals,
         Bal(Address),
         FailNext,
+        FailKind,
         Allow(Address, Address),
+    }
+
+    #[soroban_sdk::contracterror]
+    #[derive(Copy, Clone, Debug, Eq, PartialEq)]
+    #[repr(u32)]
+    pub enum PTokenError {
+        Refused = 10,
     }
 
     /// Token with the complete standard token interface, settable metadata and a "refuse
@@ -326,6 +356,9 @@ pub mod ptoken {
         pub fn set_fail(env: Env, f: bool) {
             env.storage().instance().set(&PKey::FailNext, &f);
         }
+        pub fn set_fail_kind(env: Env, k: u32) {
+            env.storage().instance().set(&PKey::FailKind, &k);
+        }
         pub fn give(env: Env, to: Address, amount: i128) {
             let b: i128 = env.storage().persistent().get(&PKey::Bal(to.clone())).unwrap_or(0);
             env.storage().persistent().set(&PKey::Bal(to), &(b + amount));
@@ -345,6 +378,9 @@ pub mod ptoken {
         pub fn transfer(env: Env, from: Address, to: Address, amount: i128) {
             from.require_auth();
             if env.storage().instance().get::<_, bool>(&PKey::FailNext).unwrap_or(false) {
+                if env.storage().instance().get::<_, u32>(&PKey::FailKind).unwrap_or(0) == 1 {
+                    soroban_sdk::panic_with_error!(&env, PTokenError::Refused);
+                }
                 panic!("probe token refuses");
             }
             if amount < 0 {
@@ -374,6 +410,9 @@ pub mod ptoken {
         pub fn transfer_from(env: Env, spender: Address, from: Address, to: Address, amount: i128) {
             spender.require_auth();
             if env.storage().instance().get::<_, bool>(&PKey::FailNext).unwrap_or(false) {
+                if env.storage().instance().get::<_, u32>(&PKey::FailKind).unwrap_or(0) == 1 {
+                    soroban_sdk::panic_with_error!(&env, PTokenError::Refused);
+                }
                 panic!("probe token refuses");
             }
             Self::spend(&env, &from, &spender, amount);
